@@ -8,7 +8,9 @@ if [ "$1" = "-R" ]; then REV="-R"; shift; fi
 if [ -n "$(git -C /repo status --porcelain --untracked-files=no)" ]; then echo "/repo is not clean"; exit 3; fi
 EVBAK=$(mktemp -d)
 cp -r /verif/evidence/. "$EVBAK"/ 2>/dev/null
-restore() { git -C /repo checkout -- . ; cp -r "$EVBAK"/. /verif/evidence/ 2>/dev/null; rm -rf "$EVBAK"; }
+restore() { git -C /repo checkout -- . ; cp -r "$EVBAK"/. /verif/evidence/ 2>/dev/null; rm -rf "$EVBAK";
+  # the harness binaries were linked against the patched tree: relink them against the restored one
+  (cd /verif/harness && CARGO_NET_OFFLINE=true cargo build --offline --quiet >/dev/null 2>&1); }
 trap restore EXIT INT TERM
 git -C /repo apply $REV "$PATCH" || { echo "patch does not apply"; exit 3; }
 for p in "$@"; do
